@@ -39,7 +39,7 @@
 (*                            enough, as TLC shows: the first phase writes *)
 (*                            the new slot under the old two-phase flag    *)
 (***************************************************************************)
-EXTENDS Naturals, Sequences, FiniteSets, TLC
+EXTENDS Naturals, Sequences, FiniteSets, TLC, RecoverOps
 
 CONSTANTS MaxVer, MaxParts, MaxCrash, MaxGrow, TornHeader, SyncBeforeFlip, PickNewer, SavepointTwoPhase, SavepointPreFlush
 
@@ -63,7 +63,6 @@ VARIABLES
 cvars == <<hdr, dgod, dslots, dpages, pend, vparts, parent, gone, pins, cur, nextVer, nextTxn, acked, visible, crashes, grows, bad>>
 
 None == [ver |-> 0, kind |-> "none", stage |-> "idle", sp |-> FALSE]
-Other(i) == 3 - i
 Slot(t, v) == [txn |-> t, ver |-> v]
 
 Init ==
@@ -226,12 +225,13 @@ Crash ==
   /\ crashes < MaxCrash
   /\ \E S \in SUBSET (1..Len(pend)) :
        LET d == Apply(pend, S, dgod, dslots, dpages)
-           p0 == d.god.primary
-           newer == d.slots[Other(p0)].txn > d.slots[p0].txn
-           p1 == IF d.god.tpc THEN p0 ELSE IF PickNewer /\ newer THEN Other(p0) ELSE p0
-           ok1 == Servable(d.slots[p1].ver, d.pages)
-           p2 == IF ok1 THEN p1 ELSE Other(p1)
-           failed == ~ok1 /\ (d.god.tpc \/ ~Servable(d.slots[p2].ver, d.pages))
+           \* the decisions are RecoverOps's (bound to the code image by image: RecoverTrace.tla); a slot is written
+           \* whole here, so its own checksum always verifies
+           serv == [i \in {1, 2} |-> Servable(d.slots[i].ver, d.pages)]
+           sel == Select(d.god.primary, d.god.tpc, [i \in {1, 2} |-> TRUE], [i \in {1, 2} |-> d.slots[i].txn], PickNewer)
+           v == Verify(sel.p, d.god.tpc, serv)
+           failed == v.err
+           p2 == v.p
            r == d.slots[p2].ver
        IN /\ bad' = (bad \/ failed \/ r < acked \/ (~failed /\ ~SavepointsServable(r, d.pages)))
           \* page writes of a transaction that never committed belong to nothing any more
